@@ -616,3 +616,26 @@ def r11(ctx, R):
     waits = [n for n in cfg.stmt_of for c in cfg.calls_at(n) if isinstance(c.func, ast.Attribute) and c.func.attr in ('Wait', 'wait', 'Waitall')]
     early = [ast.unparse(cfg.stmt_of[n])[:60] for n in waits if cfg.reachable(snd[0][0], n) and cfg.reachable(n, rcv[0][0])]
     R.check(not early, 'BasicRestartingMPI.prepare_next_block :: no completion of the send between posting it and posting the receive', w, 'no Wait on a path from the Send to the Recv', early)
+
+
+@rule('C08', 'C08.R13', 'method resolution of the node-parallel sweepers: whatever SweeperMPI (or a mixin derived from it) defines - residual, predictor, end point, communication set-up - is what a class deriving from it actually gets; a base-class order that lets the serial implementation win hands every rank the serial formula on its one node', floor=12)
+def r13(ctx, R):
+    from ..model import ClassInfo
+    from .. import sweepers as sw
+    repo = ctx.repo
+    mpi = repo.cls(sw.SW + 'generic_implicit_MPI.py', 'SweeperMPI')
+    n = 0
+    for ci in repo.subclasses(mpi, strict=True):
+        lineage = [c for c in ci.mro if isinstance(c, ClassInfo) and repo.is_subclass(c, mpi)]
+        names = sorted({m for c in lineage if c is not ci for m in c.methods if not (m.startswith('__') and m != '__init__')})
+        for m in names:
+            r = repo.resolve(ci, m)
+            if r is None:
+                continue
+            n += 1
+            owner = r[0]
+            w = f'{ci.module.relpath}:{ci.name}'
+            R.fn(f'{owner.module.relpath}:{owner.name}.{m}')
+            R.check(repo.is_subclass(owner, mpi), f'{ci.name}.{m} :: resolves to the node-parallel implementation', w, f'an implementation from the SweeperMPI lineage ({", ".join(c.name for c in lineage if m in c.methods)})', f'{owner.name}.{m} (bases in the order {[getattr(b, "name", str(b)) for b in ci.bases]})')
+    if n < 12:
+        raise AnalysisError(f'C08.R13: only {n} resolved methods of node-parallel sweepers found')
